@@ -1395,7 +1395,10 @@ class ComputeGraph(MultiDiGraph):
 
         # either apply the above indexing calls or return them
         if func and apply:
-            replacement = self.backend.finalize_idx_str(var=self.get_var(var), idx=idx)
+            try:
+                replacement = self.backend.finalize_idx_str(var=self.get_var(var), idx=idx)
+            except KeyError:
+                replacement = f"{var}{idx}"  # an indexed sub-expression (nested index call), not a variable
             expr_str = self._process_func_call(expr=expr_str, func=func, replacement=replacement)
 
         # handle other function calls
